@@ -445,9 +445,11 @@ func (p *iptParser) option(t string) error {
 				return gapf("non-numeric ICMP code %q", v)
 			}
 		}
-		// The protocol was already required to be ICMP/ICMPv6 by -p.
+		// The protocol was already required to be ICMP/ICMPv6 by -p.  xt_icmp (IPv4 only)
+		// treats type 255 as "any type".
+		anyType := mod == "icmp" && typ == 255
 		p.simple(p.takeNeg(), func(pk *Packet) bool {
-			return pk.ICMPType == uint8(typ) && (!hasCode || pk.ICMPCode == uint8(code))
+			return anyType || (pk.ICMPType == uint8(typ) && (!hasCode || pk.ICMPCode == uint8(code)))
 		})
 		return nil
 
